@@ -19,6 +19,24 @@ from ..report import load_table
 from ..sim import Adt, Bytes, Opq, UNK
 from . import c10
 
+_TM = {}
+
+
+def TM(crate):
+    if id(crate) not in _TM:
+        _TM[id(crate)] = lex.TokenModel(crate)
+    return _TM[id(crate)]
+
+
+def alist_unbox(S, path, v):
+    """A Box<str> payload (Value::Symbol(Box<str>)) down to the text value inside, if it is structural."""
+    from .. import alist
+    try:
+        return alist.unbox(S, path, v)
+    except Exception:
+        return v
+
+
 P = "parse::Parser::<R>::"
 OPT_FIELDS = ("keyword_syntaxes", "nil_symbol", "t_symbol", "brackets", "string_syntax", "char_syntax",
               "racket_hash_percent_symbols", "leading_digit_symbols")
@@ -202,6 +220,9 @@ def _token_kinds(lexpr, pt, seq, optvals):
                     "parse_radix_literal", "from_slice_custom"):
             if any(n.endswith(key) for n in nm):
                 path.events.append(("uses", key))
+        # a slice sub-parser built in place over the token text plays the role of Parser::from_slice_custom
+        if fn.path == pt.path and any(n.endswith("SliceRead::new") or n.endswith("SliceRead::<'a>::new") for n in nm):
+            path.events.append(("uses", "from_slice_custom"))
         return None
 
     S = sim.Sim([lexpr], hooks={"call": hook, "opaque": opaque}, inline=lex.helper_inline(lexpr, INL),
@@ -215,7 +236,7 @@ def _token_kinds(lexpr, pt, seq, optvals):
         if isinstance(rv, Adt) and rv.adt.endswith("Result"):
             if rv.variant == 0 and isinstance(rv.fields[0], Adt):
                 tk = rv.fields[0]
-                nm = tok[tk.variant]
+                nm = TM(lexpr).kind(tk, S, p)
                 if nm in ("ListOpen", "VecOpen") and tk.fields and isinstance(tk.fields[0], int):
                     nm += "(%s)" % chr(tk.fields[0])
                 kinds.add(nm)
@@ -410,9 +431,10 @@ def opt_decision(ctx, lexpr, pt):
                             rv = pth.ret
                             if isinstance(rv, Adt) and rv.variant == 0 and isinstance(rv.fields[0], Adt):
                                 tk = rv.fields[0]
-                                pay = tk.fields[0] if tk.fields else None
-                                pay = S._deref(pay, pth) if pay is not None else None
-                                got.add((tok[tk.variant], bytes(pay.b) if isinstance(pay, Str) else (pay if isinstance(pay, int) else None)))
+                                tmod = TM(lexpr)
+                                pay = tmod.payload(tk, S, pth)
+                                pay = alist_unbox(S, pth, pay)
+                                got.add((tmod.kind(tk, S, pth), bytes(pay.b) if isinstance(pay, Str) else (pay if isinstance(pay, int) else None)))
                             else:
                                 got.add(("Err", None))
                     except sim.Limit:
@@ -470,6 +492,12 @@ def subparser_end(ctx, lexpr):
                     "from_str", "from_reader"):
                 if not t["dest"]["p"]:
                     made.append((bi, t["dest"]["l"], t))
+        for bi, b in enumerate(fn.blocks):
+            if b.get("cleanup"):
+                continue
+            for st in b["stmts"]:
+                if st["k"] == "assign" and st["rv"]["k"] == "agg" and st["rv"].get("adt") == "parse::Parser" and not st["place"]["p"]:
+                    made.append((bi, st["place"]["l"], {"line": st.get("line")}))      # a parser built in place
         for bi, local, t in made:
             n += 1
             defs = common.defs_of(fn)
@@ -528,7 +556,7 @@ def quote_table(ctx, lexpr, pt):
             if isinstance(rv, Adt) and rv.variant == 0 and isinstance(rv.fields[0], Adt):
                 tk = rv.fields[0]
                 payload = S._deref(tk.fields[0], p) if tk.fields else None
-                got.add((tok[tk.variant], bytes(payload.b) if isinstance(payload, Bytes) else None))
+                got.add((TM(lexpr).kind(tk, S, p), bytes(payload.b) if isinstance(payload, Bytes) else None))
             else:
                 got.add(("Err", None))
         if got == {("Quotation", name)}:
@@ -625,7 +653,7 @@ def num_boundary(ctx, lexpr, pt):
             if p.end != "return" or not any(e[0] == "number-parsed" for e in p.events):
                 continue
             rv = p.ret
-            if isinstance(rv, Adt) and rv.variant == 0 and isinstance(rv.fields[0], Adt) and tok[rv.fields[0].variant] == "Number":
+            if isinstance(rv, Adt) and rv.variant == 0 and isinstance(rv.fields[0], Adt) and TM(lexpr).kind(rv.fields[0], S, p) == "Number":
                 if any(e[0] == "boundary-read" for e in p.events):
                     checked += 1
                 else:
